@@ -326,10 +326,13 @@ func ruleCacheOwned(p *Prog, r *Report, pkg, lookupRecv, lookupFn, cacheRecv, ca
 	r.Instance(rule, key)
 	// values stored in the cache
 	var stored []ssa.Value
-	for _, b := range look.Blocks {
-		for _, in := range b.Instrs {
-			if mu, ok := in.(*ssa.MapUpdate); ok && isLoadOfField(mu.Map, cacheF) {
-				stored = append(stored, mu.Value)
+	// (in the lookup function or in a helper it calls)
+	for fn := range reachableFns(p, []*ssa.Function{look}) {
+		for _, b := range fn.Blocks {
+			for _, in := range b.Instrs {
+				if mu, ok := in.(*ssa.MapUpdate); ok && isLoadOfField(mu.Map, cacheF) {
+					stored = append(stored, mu.Value)
+				}
 			}
 		}
 	}
@@ -368,6 +371,20 @@ func ruleCacheOwned(p *Prog, r *Report, pkg, lookupRecv, lookupFn, cacheRecv, ca
 			}
 		case *ssa.Slice:
 			trace(x.X, d+1)
+		case *ssa.Parameter:
+			// the store is in a helper: the value is what its callers pass
+			if node := p.CG().Nodes[x.Parent()]; node != nil {
+				for i, q := range x.Parent().Params {
+					if q != x {
+						continue
+					}
+					for _, e := range node.In {
+						if e.Site != nil && e.Site.Common().StaticCallee() == x.Parent() && i < len(e.Site.Common().Args) {
+							trace(e.Site.Common().Args[i], d+1)
+						}
+					}
+				}
+			}
 		case *ssa.Phi:
 			for _, e := range x.Edges {
 				trace(e, d+1)
